@@ -12,6 +12,7 @@
 #include <etl/_type_traits/declval.hpp>
 #include <etl/_type_traits/index_constant.hpp>
 #include <etl/_type_traits/is_assignable.hpp>
+#include <etl/_type_traits/is_constructible.hpp>
 #include <etl/_type_traits/is_convertible.hpp>
 #include <etl/_type_traits/is_copy_assignable.hpp>
 #include <etl/_type_traits/is_copy_constructible.hpp>
@@ -27,6 +28,7 @@
 #include <etl/_utility/forward.hpp>
 #include <etl/_utility/index_sequence.hpp>
 #include <etl/_utility/move.hpp>
+#include <etl/_utility/pair.hpp>
 #include <etl/_utility/swap.hpp>
 
 namespace etl {
@@ -107,6 +109,31 @@ public:
     }
 };
 
+// tuple<T>(tuple<U> const&) / tuple<T>(tuple<U>&&) must not compete with tuple<T>(U&&) ([tuple.cnstr]):
+// for one element the converting constructor is only used when T cannot be made from the tuple itself.
+struct tuple_convert_tag { };
+
+template <typename Other, typename... Ts>
+inline constexpr bool tuple_converting_ctor_ok = true;
+
+template <typename Other, typename T>
+inline constexpr bool tuple_converting_ctor_ok<Other, T>
+    = not is_convertible_v<Other, T> and not is_constructible_v<T, Other>;
+
+template <typename Tuple, typename P1, typename P2>
+inline constexpr bool tuple_constructible_from_pair = false;
+
+template <typename T0, typename T1, typename P1, typename P2>
+inline constexpr bool tuple_constructible_from_pair<etl::tuple<T0, T1>, P1, P2>
+    = is_constructible_v<T0, P1> and is_constructible_v<T1, P2>;
+
+template <typename Tuple, typename P1, typename P2>
+inline constexpr bool tuple_convertible_from_pair = false;
+
+template <typename T0, typename T1, typename P1, typename P2>
+inline constexpr bool tuple_convertible_from_pair<etl::tuple<T0, T1>, P1, P2>
+    = is_convertible_v<P1, T0> and is_convertible_v<P2, T1>;
+
 } // namespace detail
 
 template <typename... Ts>
@@ -177,6 +204,45 @@ public:
     {
     }
 
+    /// \brief Initializes each element with the corresponding element of other.
+    template <typename... Us>
+        requires(
+            (sizeof...(Us) == sizeof...(Ts)) and (not(is_same_v<Ts, Us> and ...))
+            and (is_constructible_v<Ts, Us const&> and ...)
+            and detail::tuple_converting_ctor_ok<tuple<Us...> const&, Ts...>
+        )
+    explicit(not(is_convertible_v<Us const&, Ts> and ...)) constexpr tuple(tuple<Us...> const& other)
+        : tuple(detail::tuple_convert_tag{}, other, etl::index_sequence_for<Ts...>{})
+    {
+    }
+
+    /// \brief Initializes each element with etl::forward<Ui>(get<i>(other)).
+    template <typename... Us>
+        requires(
+            (sizeof...(Us) == sizeof...(Ts)) and (not(is_same_v<Ts, Us> and ...))
+            and (is_constructible_v<Ts, Us> and ...) and detail::tuple_converting_ctor_ok<tuple<Us...>, Ts...>
+        )
+    explicit(not(is_convertible_v<Us, Ts> and ...)) constexpr tuple(tuple<Us...>&& other)
+        : tuple(detail::tuple_convert_tag{}, etl::move(other), etl::index_sequence_for<Ts...>{})
+    {
+    }
+
+    /// \brief Initializes the two elements with p.first and p.second.
+    template <typename U1, typename U2>
+        requires(detail::tuple_constructible_from_pair<tuple, U1 const&, U2 const&>)
+    explicit(not detail::tuple_convertible_from_pair<tuple, U1 const&, U2 const&>) constexpr tuple(pair<U1, U2> const& p)
+        : _impl{p.first, p.second}
+    {
+    }
+
+    /// \brief Initializes the two elements with etl::forward<U1>(p.first) and etl::forward<U2>(p.second).
+    template <typename U1, typename U2>
+        requires(detail::tuple_constructible_from_pair<tuple, U1, U2>)
+    explicit(not detail::tuple_convertible_from_pair<tuple, U1, U2>) constexpr tuple(pair<U1, U2>&& p)
+        : _impl{etl::forward<U1>(p.first), etl::forward<U2>(p.second)}
+    {
+    }
+
     constexpr tuple(tuple const&)     = default;
     constexpr tuple(tuple&&) noexcept = default;
 
@@ -218,6 +284,12 @@ public:
     constexpr auto swap(tuple& other) noexcept((is_nothrow_swappable_v<Ts> && ...)) -> void { _impl.swap(other._impl); }
 
 private:
+    template <typename Other, etl::size_t... Is>
+    constexpr tuple(detail::tuple_convert_tag /*tag*/, Other&& other, etl::index_sequence<Is...> /*is*/)
+        : _impl{etl::forward<Other>(other).get_impl(etl::index_v<Is>)...}
+    {
+    }
+
     template <typename Other, etl::size_t... Is>
     constexpr auto assign_from(Other&& other, etl::index_sequence<Is...> /*is*/) -> void
     {
